@@ -1,6 +1,7 @@
 import CalVerif.Prim.Wire
 import CalVerif.Model.Xlsb
 import CalVerif.Spec.XlsbEnc
+import CalVerif.Model.XlsbBook
 /-! Driver for C03 (XLSB cell records). One request line → one reply line.
 
     item   = `R,<wide>,<lenw>,<row>,<tailhex>` | `N,<wide>,<lenw>,<id>,<payloadhex>`
@@ -17,6 +18,14 @@ import CalVerif.Spec.XlsbEnc
     `wstr <hex>`               → `ok <units> <str_len>` | `err:WideStr` | `panic`
     `sst <hex>`                → `ok <strings>` | `err:…` | `panic`
     `dim <hex>`                → `sr sc er ec`
+    `rels <b|x> <ev>…`         → `Rels.readRels` (xlsb / xlsx configuration) on the events of a relationships part:
+                                 `ok <idhex>=<targethex>,…` (latest first; `-` = empty) | `err:<class>`
+                                 ev = `S:<namehex>:<attr>;…` (attr = `<keyhex>=<valhex>` | `!` malformed; no attrs: `S:<namehex>:`)
+                                 | `E:<namehex>` | `O` | `F` (Eof) | `X` (tokeniser error); empty hex = `-`
+    `book <wbhex|-> <ev>…`     → `XlsbBook.openBook` restricted to relationships + workbook.bin (formula decoder: a stub,
+                                 the generated workbooks have no defined names): `ok <1904> <name utf8 hex>:<kind>:<vis>:<pathhex> …`
+                                 | `err:<class>`; first token after `book`: the workbook part, then `R` (rels part present)
+                                 or `N` (absent), then the events
     `sweep id <lo> <hi> <wide>`   → `<fnv of the encoded bytes> <fnv of the decoded ids>` for ids lo..hi-1, each
                                    written as a record with an empty payload
     `sweep len <lo> <hi> <w> <step>` → the same for the length varint of lo, lo+step, … < hi at width `w`
@@ -157,6 +166,42 @@ def areaOf (ctx : Ctx) (bs : Bytes) : String :=
     | _ => "-"
   | _ => "-"
 
+def natsOfHex (s : String) : Option (List Nat) := (bytesOfHex s).map (·.map (·.toNat))
+def hexOfNats (l : List Nat) : String := hexFast (l.map UInt8.ofNat)
+
+def parseAttr (s : String) : Option (Option (Rels.B × Rels.B)) :=
+  if s = "!" then some none
+  else match s.splitOn "=" with
+    | [k, v] => do some (some (← natsOfHex k, ← natsOfHex v))
+    | _ => none
+
+def parseEv (tok : String) : Option Rels.Ev :=
+  match tok.splitOn ":" with
+  | ["S", n, attrs] => do
+    let n ← natsOfHex n
+    let as ← if attrs = "" then some [] else (attrs.splitOn ";").mapM parseAttr
+    some (.start n as)
+  | ["E", n] => (natsOfHex n).map .end_
+  | ["O"] => some .other
+  | ["F"] => some .eof
+  | ["X"] => some .err
+  | _ => none
+
+def showRels (l : List (Rels.B × Rels.B)) : String :=
+  if l.isEmpty then "ok -" else "ok " ++ ",".intercalate (l.map fun r => hexOfNats r.1 ++ "=" ++ hexOfNats r.2)
+
+def kindName : SheetType → String
+  | .workSheet => "WorkSheet" | .dialogSheet => "DialogSheet" | .macroSheet => "MacroSheet"
+  | .chartSheet => "ChartSheet" | .vba => "Vba"
+
+def visName : SheetVisible → String
+  | .visible => "Visible" | .hidden => "Hidden" | .veryHidden => "VeryHidden"
+
+def showBook (bk : XlsbBook.Book) : String :=
+  let rows := (bk.wb.sheets.zip bk.paths).map fun p =>
+    s!"{hexOfNats (p.1.name.flatMap Utf8.encodeNat)}:{kindName p.1.typ}:{visName p.1.visible}:{hexOfNats (Utf8.utf8Encode p.2)}"
+  s!"ok {if bk.wb.is1904 then 1 else 0} " ++ (if rows.isEmpty then "-" else joinSp rows)
+
 def handle (line : String) : String :=
   match words line with
   | "enc" :: items =>
@@ -191,6 +236,18 @@ def handle (line : String) : String :=
     match bytesOfHex hex with
     | some bs => let d := parseDimensions bs; s!"{d.1} {d.2.1} {d.2.2.1} {d.2.2.2}"
     | none => "bad-args"
+  | "rels" :: cfg :: evs =>
+    match evs.mapM parseEv with
+    | some es => showRes showRels (Rels.readRels (if cfg = "x" then Rels.xlsxCfg else Rels.xlsbCfg) es)
+    | none => "bad-args"
+  | "book" :: wb :: present :: evs =>
+    match evs.mapM parseEv, (if wb = "none" then some none else (bytesOfHex wb).map some) with
+    | some es, some wbPart =>
+      let parts : XlsbBook.Parts := match wbPart with
+        | some b => [(XlsbBook.wbPath, b)]
+        | none => []
+      showRes showBook (XlsbBook.openBook (fun _ _ _ => .ok []) parts (if present = "R" then some es else none))
+    | _, _ => "bad-args"
   | ["sweep", "id", lo, hi, wide] =>
     match lo.toNat?, hi.toNat? with
     | some a, some b => sweepId a b (wide = "1")
